@@ -4,6 +4,7 @@
    the real tool by harness/shell_corr.py, and checked end to end by the oracle in props/c19.py. *)
 From Coq Require Import List NArith Bool.
 From NV Require Import Lib.Res Gen.Copy Copy.Model Copy.Proofs.
+From NV Require Gen.Fat FatVol.Model FatVol.ProofsInv FatVol.Proofs.
 Import ListNotations.
 Open Scope N_scope.
 
@@ -123,3 +124,16 @@ Theorem C19_cat_concat_o :
   forall (fold : name -> name) (w : world) (srcs : list path) (cs : list (list N)) (o : path), Forall2 (fun (s : path) (c : list N) => wlookup fold w s = Some (File c)) srcs cs -> creatable fold w o \/ (exists c0 : list N, wwalk fold w o = LNode (File c0)) -> Forall (fun s : path => disjoint fold s o) srcs -> let w' := wput fold w o (File (concat cs)) in do_cat fold srcs (Some o) w = (w', Ok []) /\ wlookup fold w' o = Some (File (concat cs)) /\ (forall q : path, disjoint fold q o -> wlookup fold w' q = wlookup fold w q).
 Proof. exact Shell.ProofsCmd.cat_concat_o. Qed.
 Print Assumptions C19_cat_concat_o.
+
+(* "a failing command leaves every image structurally consistent": sh.py reaches the partitions through the public
+   path API only (fact regenerated from sh.py: no private attribute of a path / file-system object, no table or cluster
+   access), so what a command does to a partition -- whether it then succeeds or fails, wherever it stops -- is a history of
+   path operations; and ANY history of path operations, whatever each one's outcome, keeps the volume invariant (all chains
+   well-formed and disjoint, no lost cluster, sizes match chains, dot entries right, names unique, directory graph a tree) *)
+Theorem C19_any_command_keeps_the_volume_consistent :
+  Gen.Fat.sh_uses_public_path_api_only = true /\
+  forall upper V, FatVol.ProofsInv.params_wf V -> forall ops s,
+    FatVol.ProofsInv.VolInv upper V s -> FatVol.Proofs.run_guard upper V s ops ->
+    FatVol.ProofsInv.VolInv upper V (fst (FatVol.Model.run upper V s ops)).
+Proof. split; [reflexivity|exact FatVol.Proofs.FV_history_inv]. Qed.
+Print Assumptions C19_any_command_keeps_the_volume_consistent.
